@@ -16,6 +16,7 @@
 -/
 import AgpTpf.Proofs.ImpFasta
 import AgpTpf.Properties.C03Imp
+import AgpTpf.Proofs.C03Example
 namespace AgpTpf.C13
 open AgpTpf
 
@@ -58,9 +59,8 @@ theorem get_gap_iter_is_source_any_bs (g : Gap) (c : Nat) (bs : Int) :
   rw [ImpFasta.rangeUp_zero, List.map_map, ← ImpFasta.mapM_ok]
   apply ImpFasta.generator_eq_mapM
   · intro k _ acc
-    simp only [ImpFasta.bytesRepeat_singleton, Except.map, Function.comp, List.headD_cons]
-    congr 6
-    omega
+    simp only [Function.comp, List.headD_cons]
+    exact ImpFasta.yield_gap_congr acc c (by omega)
   · intro ys; rfl
 
 /-- `get_gap_iter(gap, gap_character)` with a ONE-byte gap character (what `FastaStream` passes: `b"N"`) yields the model's chunks:
@@ -362,5 +362,38 @@ example : ∀ row ∈ [Row.frag { oid := 0, name := "a".toList, start := 1, stop
         (.frag { oid := 1, name := "a".toList, start := 3, stop := 8, strand := -1, tags := [] })
         = .ok [{ data := [71, 84, 78] }, { data := [78, 65, 67] }] := by rfl
     rw [h'] at h; cases h; decide
+
+/-- **Well-formed input: `buffer_size < fuel` is enough.**  When every fragment row of the scaffold names an index entry that lays
+    its residues out in `file` and lies within them (`StreamProofs.RowOK`, the hypothesis of `C13.stream_memory_bound`; gap rows of
+    any length are OK), every chunk either iterator yields has at most `buffer_size` bytes, so any fuel above `buffer_size` will do.
+    Here `1 ≤ bs` is used. -/
+theorem write_scaffold_with_source_iterators_of_rowOK (file : Bytes) (idx : List (Str × FastaInfo)) (resOf : Str → Bytes)
+    (bs w : Int) (p : Bytes → Nat) (sc : Scaffold) (fuel : Nat) (hbs : 1 ≤ bs)
+    (hok : ∀ r ∈ sc.rows, StreamProofs.RowOK file idx resOf r) (hfuel : bs.toNat < fuel) :
+    Gen.Imp.FastaStream_write_scaffold fuel sc w Gen.gapCharacter (srcGapIter bs) (srcSeqIter file idx bs p)
+      = (streamScaffold file idx bs w sc).map (·.out) := by
+  apply write_scaffold_with_source_iterators_any_bs
+  intro row hrow
+  constructor
+  · intro c hc
+    have hg : C03.modelGapIter bs row Gen.gapCharacter = ImpStream.gapIter bs row Gen.gapCharacter := by cases row <;> rfl
+    rw [hg] at hc
+    exact Nat.lt_of_le_of_lt (ImpStream.gapIter_length_le bs row _ c hc) hfuel
+  · intro cs hcs c hc
+    cases row with
+    | gap g => cases hcs
+    | frag f =>
+      have hs : C03.modelSeqIter file idx bs (.frag f) = ImpStream.seqIter file idx bs (.frag f) := rfl
+      rw [hs] at hcs
+      exact Nat.lt_of_le_of_lt (ImpFasta.seqIter_chunk_le hbs file idx resOf f (hok _ hrow) cs hcs c hc) hfuel
+
+/-- the hypotheses are satisfiable: the fixture of `Proofs/C03Example.lean` (`x:1-4(+) gap(2) x:6-10(-)` over a 3-line record),
+    `buffer_size = 3`, fuel 4; and the translated writer over the translated iterators run on it -/
+example : (∀ r ∈ StreamExample.exScaffold.rows,
+    StreamProofs.RowOK StreamExample.exFile StreamExample.exIdx StreamExample.exResOf r) ∧ (3 : Int).toNat < 4 :=
+  ⟨StreamExample.exRowsOK, by decide⟩
+example : Gen.Imp.FastaStream_write_scaffold 4 StreamExample.exScaffold 4 Gen.gapCharacter (srcGapIter 3)
+    (srcSeqIter StreamExample.exFile StreamExample.exIdx 3 List.length)
+    = .ok (strToBytes ">s\nAACC\nNNTA\nACN\n".toList) := by rfl
 
 end AgpTpf.C13
